@@ -31,7 +31,8 @@ def q(seconds: float) -> int:
 
 
 class RefEngine:
-    def __init__(self, prog: dict, injections: dict | None = None):
+    def __init__(self, prog: dict, injections: dict | None = None, injected_cancels: dict | None = None):
+        self.injected_cancels = dict(injected_cancels or {})
         # injections: {n: [emit, ...]} events built and scheduled from outside while the run was paused after its
         # n-th processed event (as it actually happened on the engine; whether a pause takes effect is C04's business)
         self.injections = dict(injections or {})
@@ -158,6 +159,9 @@ class RefEngine:
             self.pending.extend(created)
 
     def _inject(self) -> None:
+        for idx in self.injected_cancels.pop(self.processed, []):
+            if self.registry:
+                self.registry[idx % len(self.registry)]["cancelled"] = True
         for e in self.injections.pop(self.processed, []):
             self.phase = "paused"
             self.pending.append(self._new_event(self.now + e["dt"], e["to"], e["k"], e.get("daemon", False)))
